@@ -2834,7 +2834,10 @@ class PlateSlicer(Slicer):
     def _get_slice_string(self, item):
         assert isinstance(item, tuple)
         left, right = item
-        if left.start is None and left.stop is None and right.start is None and right.stop is None:
+        left_step = '' if left.step in (None, 1) else f":{left.step}"
+        right_step = '' if right.step in (None, 1) else f":{right.step}"
+        if left.start is None and left.stop is None and right.start is None and right.stop is None \
+                and not left_step and not right_step:
             return ':'
         if left.start is None:
             left = slice(0, left.stop)
@@ -2847,14 +2850,14 @@ class PlateSlicer(Slicer):
         if left.stop == left.start + 1 and right.stop == right.start + 1:
             return f"'{self.plate.row_names[left.start]}:{self.plate.column_names[right.start]}'"
         else:
-            if left.start == 0 and left.stop == len(self.plate.row_names):
+            if left.start == 0 and left.stop == len(self.plate.row_names) and not left_step:
                 left = ':'
             else:
-                left = f"'{self.plate.row_names[left.start]}':'{self.plate.row_names[left.stop - 1]}'"
-            if right.start == 0 and right.stop == len(self.plate.column_names):
+                left = f"'{self.plate.row_names[left.start]}':'{self.plate.row_names[left.stop - 1]}'{left_step}"
+            if right.start == 0 and right.stop == len(self.plate.column_names) and not right_step:
                 right = ':'
             else:
-                right = f"'{self.plate.column_names[right.start]}':'{self.plate.column_names[right.stop - 1]}'"
+                right = f"'{self.plate.column_names[right.start]}':'{self.plate.column_names[right.stop - 1]}'{right_step}"
             if right == ':':
                 return left
             else:
